@@ -1,13 +1,191 @@
-(* Properties/C18.v — placeholder until the proofs are assembled. *)
+(* Properties/C18.v — the validator always produces a report and each check is exact.
+   Statements only; proofs in Proofs/ValidateProofs.v; the declarative conditions are in
+   Proofs/ValidateSpec.v (occurrence counts, "is a sense/synset id", the relation triples of W404). *)
 From Coq Require Import String.
-From Coq Require Import ZArith List.
+From Coq Require Import ZArith List Bool.
 Import ListNotations.
-Require Import WnV.Base.Sx WnV.Model.Validate.
-Example C18_model_runs :
-  match validate {| l_id := str_of_string "x"; l_entries := []; l_synsets := []; l_frame_ids := []; l_extends := false |}
-                 [str_of_string "E"] with
-  | Some rep => map fst rep = ["E101"; "E204"; "E401"]%string
-  | None => False
-  end.
+Require Import WnV.Base.Sx WnV.Gen.Constants WnV.Gen.ValidateTable WnV.Model.Validate
+        WnV.Proofs.ValidateSpec WnV.Proofs.ValidateProofs.
+Local Open Scope Z_scope.
+
+(* ---- the report ---- *)
+Theorem C18_validate_total : forall lex sel, validate lex sel <> None.
+Proof. exact validate_total. Qed.
+Print Assumptions C18_validate_total.
+
+Theorem C18_validate_selected : forall lex sel rep,
+    l_extends lex = false -> validate lex sel = Some rep ->
+    map fst rep = filter (selected sel) (map (fun c => fst (fst c)) VALIDATE_CODES).
+Proof. exact validate_selected. Qed.
+Print Assumptions C18_validate_selected.
+
+Theorem C18_validate_items : forall lex sel rep code its,
+    validate lex sel = Some rep -> In (code, its) rep ->
+    exists fname doc f, In (code, fname, doc) VALIDATE_CODES /\ check_of_name fname = Some f /\ its = f lex.
+Proof. exact validate_items. Qed.
+Print Assumptions C18_validate_items.
+
+Theorem C18_validate_extension : forall lex sel, l_extends lex = true -> validate lex sel = Some [].
+Proof. exact validate_extension. Qed.
+Print Assumptions C18_validate_extension.
+
+
+(* ---- each check lists exactly the entities that satisfy its condition ---- *)
+Theorem C18_E101_exact : forall lex k c,
+    In (k, c) (non_unique_id lex) <->
+    ((1 < occ k (all_ids lex))%nat /\ c = [(f_count, A (Z.of_nat (occ k (all_ids lex))))]).
+Proof. exact E101_exact. Qed.
+Print Assumptions C18_E101_exact.
+
+Theorem C18_W201_exact : forall lex k,
+    In k (keys (has_no_senses lex)) <-> exists e, In e (l_entries lex) /\ e_senses e = [] /\ k = K (e_id e).
+Proof. exact W201_exact. Qed.
+Print Assumptions C18_W201_exact.
+
+Theorem C18_W202_exact : forall lex k,
+    In k (keys (redundant_sense lex)) <->
+    exists e s, In e (l_entries lex) /\ In s (e_senses e) /\ k = K (s_id s)
+                /\ (1 < occ (K (s_synset s)) (map (fun s' => K (s_synset s')) (e_senses e)))%nat.
+Proof. exact W202_exact. Qed.
+Print Assumptions C18_W202_exact.
+
+Theorem C18_W203_exact : forall lex k,
+    In k (keys (redundant_entry lex)) <->
+    exists e s, In (e, s) (all_senses lex) /\ k = K (e_lemma e)
+                /\ (1 < occ (L [K (e_lemma e); K (s_synset s)])
+                            (map (fun es => L [K (e_lemma (fst es)); K (s_synset (snd es))]) (all_senses lex)))%nat.
+Proof. exact W203_exact. Qed.
+Print Assumptions C18_W203_exact.
+
+Theorem C18_E204_exact : forall lex k,
+    In k (keys (missing_synset lex)) <->
+    exists e s, In (e, s) (all_senses lex) /\ k = K (s_id s) /\ ~ is_synset_id lex (s_synset s).
+Proof. exact E204_exact. Qed.
+Print Assumptions C18_E204_exact.
+
+Theorem C18_W301_exact : forall lex k,
+    In k (keys (empty_synset lex)) <->
+    exists ss, In ss (l_synsets lex) /\ k = K (ss_id ss)
+               /\ ~ (exists e s, In (e, s) (all_senses lex) /\ s_synset s = ss_id ss).
+Proof. exact W301_exact. Qed.
+Print Assumptions C18_W301_exact.
+
+Theorem C18_W302_exact : forall lex k,
+    In k (keys (repeated_ili lex)) <->
+    exists ss, In ss (l_synsets lex) /\ k = K (ss_id ss)
+               /\ (1 < occ (K (ss_ili ss)) (map (fun x => K (ss_ili x)) (filter real_ili (l_synsets lex))))%nat.
+Proof. exact W302_exact. Qed.
+Print Assumptions C18_W302_exact.
+
+Theorem C18_W303_exact : forall lex k,
+    In k (keys (missing_ili_definition lex)) <->
+    exists ss, In ss (l_synsets lex) /\ k = K (ss_id ss) /\ ss_ili ss = s_in /\ ss_ilidef ss = false.
+Proof. exact W303_exact. Qed.
+Print Assumptions C18_W303_exact.
+
+Theorem C18_W304_exact : forall lex k,
+    In k (keys (spurious_ili_definition lex)) <->
+    exists ss, In ss (l_synsets lex) /\ k = K (ss_id ss) /\ real_ili ss = true /\ ss_ilidef ss = true.
+Proof. exact W304_exact. Qed.
+Print Assumptions C18_W304_exact.
+
+Theorem C18_blank_spec : forall s, blank s = true <-> forall c, In c s -> is_space c = true.
+Proof. exact blank_spec. Qed.
+Print Assumptions C18_blank_spec.
+
+Theorem C18_W305_exact : forall lex k,
+    In k (keys (blank_synset_definition lex)) <->
+    exists ss d, In ss (l_synsets lex) /\ k = K (ss_id ss) /\ In d (ss_defs ss) /\ blank d = true.
+Proof. exact W305_exact. Qed.
+Print Assumptions C18_W305_exact.
+
+Theorem C18_W306_exact : forall lex k,
+    In k (keys (blank_synset_example lex)) <->
+    exists ss d, In ss (l_synsets lex) /\ k = K (ss_id ss) /\ In d (ss_exs ss) /\ blank d = true.
+Proof. exact W306_exact. Qed.
+Print Assumptions C18_W306_exact.
+
+Theorem C18_W307_exact : forall lex k,
+    In k (keys (repeated_synset_definition lex)) <->
+    exists ss d, In ss (l_synsets lex) /\ k = K (ss_id ss) /\ In d (ss_defs ss)
+                 /\ (1 < occ (K d) (map K (flat_map ss_defs (l_synsets lex))))%nat.
+Proof. exact W307_exact. Qed.
+Print Assumptions C18_W307_exact.
+
+Theorem C18_E401_exact : forall lex k,
+    In k (keys (missing_relation_target lex)) <->
+    (exists s r, In (s, r) (sense_relations lex) /\ k = K (s_id s)
+                 /\ ~ is_sense_id lex (r_target r) /\ ~ is_synset_id lex (r_target r))
+    \/ (exists ss r, In (ss, r) (synset_relations lex) /\ k = K (ss_id ss) /\ ~ is_synset_id lex (r_target r)).
+Proof. exact E401_exact. Qed.
+Print Assumptions C18_E401_exact.
+
+Theorem C18_W402_exact : forall lex k,
+    In k (keys (invalid_relation_type lex)) <->
+    (exists s r, In (s, r) (sense_relations lex) /\ k = K (s_id s)
+                 /\ ((is_sense_id lex (r_target r) /\ smem (r_type r) SENSE_RELATIONS = false)
+                     \/ (is_synset_id lex (r_target r) /\ smem (r_type r) SENSE_SYNSET_RELATIONS = false)))
+    \/ (exists ss r, In (ss, r) (synset_relations lex) /\ k = K (ss_id ss)
+                     /\ smem (r_type r) SYNSET_RELATIONS = false).
+Proof. exact W402_exact. Qed.
+Print Assumptions C18_W402_exact.
+
+Theorem C18_W403_exact : forall lex k,
+    In k (keys (redundant_relation lex)) <->
+    exists rk, In rk (all_rel_keys lex) /\ k = sx_nth 0 rk /\ (1 < occ rk (all_rel_keys lex))%nat.
+Proof. exact W403_exact. Qed.
+Print Assumptions C18_W403_exact.
+
+Theorem C18_W404_exact : forall lex k,
+    In k (keys (missing_reverse_relation lex)) <->
+    exists src typ rv tgt, k = K tgt /\ regular lex src typ tgt /\ reverse_of typ = Some rv
+                           /\ ~ regular lex tgt rv src.
+Proof. exact W404_exact. Qed.
+Print Assumptions C18_W404_exact.
+
+Theorem C18_W501_exact : forall lex k,
+    In k (keys (hypernym_wrong_pos lex)) <->
+    exists ss r p, In (ss, r) (synset_relations lex) /\ k = K (ss_id ss) /\ r_type r = s_hypernym
+                   /\ sspos lex (r_target r) = Some p /\ ss_pos ss <> p.
+Proof. exact W501_exact. Qed.
+Print Assumptions C18_W501_exact.
+
+Theorem C18_W502_exact : forall lex k,
+    In k (keys (self_loop lex)) <->
+    (exists s r, In (s, r) (sense_relations lex) /\ k = K (s_id s) /\ s_id s = r_target r)
+    \/ (exists ss r, In (ss, r) (synset_relations lex) /\ k = K (ss_id ss) /\ ss_id ss = r_target r).
+Proof. exact W502_exact. Qed.
+Print Assumptions C18_W502_exact.
+
+(* the reverse-relation table is an involution *)
+Theorem C18_reverse_involution : forall a b, reverse_of a = Some b -> reverse_of b = Some a.
+Proof. exact reverse_involution. Qed.
+Print Assumptions C18_reverse_involution.
+
+(* every context value reported for a key comes from some entity with that key (no invented contexts) *)
+Theorem C18_dict_of_sound : forall l k v, In (k, v) (dict_of l) -> In (k, v) l.
+Proof. exact dict_of_sound. Qed.
+Print Assumptions C18_dict_of_sound.
+
+(* the table binds every documented code to its check, in the documented order (Gen/ValidateTable.v) *)
+Example C18_table_matches :
+  map (fun c : string * string * string => (fst (fst c), snd (fst c))) VALIDATE_CODES =
+  [("E101", "_non_unique_id"); ("W201", "_has_no_senses"); ("W202", "_redundant_sense"); ("W203", "_redundant_entry");
+   ("E204", "_missing_synset"); ("W301", "_empty_synset"); ("W302", "_repeated_ili"); ("W303", "_missing_ili_definition");
+   ("W304", "_spurious_ili_definition"); ("W305", "_blank_synset_definition"); ("W306", "_blank_synset_example");
+   ("W307", "_repeated_synset_definition"); ("E401", "_missing_relation_target"); ("W402", "_invalid_relation_type");
+   ("W403", "_redundant_relation"); ("W404", "_missing_reverse_relation"); ("W501", "_hypernym_wrong_pos");
+   ("W502", "_self_loop")]%string.
 Proof. vm_compute. reflexivity. Qed.
-Print Assumptions C18_model_runs.
+Print Assumptions C18_table_matches.
+
+(* non-vacuity: a lexicon with a dangling hypernym: E401 reports it, W501 stays silent, no exception *)
+Example C18_nonvacuous :
+  let ss := {| ss_id := str_of_string "x-1"; ss_ili := []; ss_pos := Some (str_of_string "n"); ss_ilidef := false;
+               ss_defs := []; ss_exs := [];
+               ss_rels := [ {| r_target := str_of_string "x-missing"; r_type := s_hypernym; r_dctype := None |} ] |} in
+  let lex := {| l_id := str_of_string "x"; l_entries := []; l_synsets := [ss]; l_frame_ids := []; l_extends := false |} in
+  keys (missing_relation_target lex) = [K (str_of_string "x-1")] /\ hypernym_wrong_pos lex = []
+  /\ validate lex [str_of_string "E"; str_of_string "W"] <> None.
+Proof. vm_compute. repeat split; try reflexivity. discriminate. Qed.
+Print Assumptions C18_nonvacuous.
